@@ -14,6 +14,7 @@
   (alignment a power of two dividing the size — `Layout::new`'s assertions).
 -/
 import RotoV.Lemmas.BoundaryPlace
+import RotoV.Lemmas.BoundaryPinned
 import RotoV.Lemmas.BoundaryValues
 
 namespace RotoV.C05
@@ -217,5 +218,69 @@ theorem abi_disagrees_when_pinned :
     ∧ rotoRuntimeCall Cfg.pinned HostLayouts.x64 s = .ok ⟨[.I64, .I64, .I32], none⟩
     ∧ rustTrampoline s = .ok ⟨[.I64, .I64, .I64, .I32], none⟩ := by
   decide
+
+/-- **The defect, characterised (`abi_agree_when_pinned_iff`).**  On the tree as pinned, for *every*
+    boundary signature (any arity, any host and registered layouts): the signature Roto declares
+    and the `extern "C"` type Rust calls through agree **iff** no parameter is a zero-sized
+    registered type.  (A zero-sized registered *return* type is harmless: neither side passes or
+    returns anything for it.) -/
+theorem abi_agree_when_pinned_iff (h : HostLayouts) (hh : h.WF) (s : BSig) (hp : ∀ p ∈ s.params, p.WF)
+    (hr : s.ret.WF) :
+    (∃ a rptr, rotoSig Cfg.pinned h s = .ok (a, rptr) ∧ rustSig h s rptr = .ok a)
+      ↔ ∀ p ∈ s.params, p.isZstVal = false := by
+  have hk := keepArgs_boundary_pinned h hh s.params hp
+  have hret := returnRule_boundary_pinned h hh s.ret hr
+  have hcur : Cfg.pinned.sigFilter = .lowerType := rfl
+  have hroto : rotoSig Cfg.pinned h s
+      = .ok (⟨declareSlots.flatMap (slotTypes (retByRefPinned s.ret) sigContext ((s.params.filterMap paramIrPinned).map craneliftType)),
+              (retIr s.ret).map craneliftType⟩, retByRefPinned s.ret) := by
+    simp only [rotoSig, hcur, hk, hret]
+  constructor
+  · rintro ⟨a, rptr, h1, h2⟩
+    rw [hroto] at h1
+    cases h1
+    have hlen := rustSig_params_length h s _ _ h2
+    have hcount := filterMap_pinned_length s.params
+    have : (s.params.filter BTy.isZstVal).length = 0 := by
+      simp [declareSlots, slotTypes, sigContext] at hlen
+      cases hb : retByRefPinned s.ret <;> simp [hb] at hlen <;> omega
+    intro p hp'
+    cases hz : p.isZstVal with
+    | false => rfl
+    | true =>
+      have hm : p ∈ s.params.filter BTy.isZstVal := List.mem_filter.mpr ⟨hp', hz⟩
+      have hpos := List.length_pos_of_mem hm
+      omega
+  · intro hno
+    refine ⟨_, _, hroto, ?_⟩
+    rw [filterMap_pinned_eq s.params hno]
+    simp only [rustSig, asParamAbis_boundary]
+    by_cases hz : s.ret.isZstVal = true
+    · -- a zero-sized registered return value: no return pointer, nothing in registers
+      have hb : retByRefPinned s.ret = false := by simp [retByRefPinned, hz]
+      obtain ⟨l, hl⟩ : ∃ l, s.ret = .val l := by
+        cases hs : s.ret <;> simp [hs, BTy.isZstVal] at hz
+        exact ⟨_, rfl⟩
+      have hsz : (rustLayout h s.ret).size = 0 := by
+        rw [hl] at hz ⊢; simpa [BTy.isZstVal, rustLayout] using hz
+      rw [hl] at hb hsz
+      simp [hb, transformedRetAbi, hsz, hl, retIr, declareSlots, rustWithoutReturnPointer, slotTypes, sigContext,
+        rustWithoutReturnPointerRet]
+    · have hz' : s.ret.isZstVal = false := by simpa using hz
+      have hb' : retByRefPinned s.ret = retByRef s.ret := by simp [retByRefPinned, hz']
+      rw [hb']
+      cases hb : retByRef s.ret
+      · simp [transformedRetAbi_boundary h hh s.ret hb, declareSlots, rustWithoutReturnPointer, slotTypes, sigContext,
+          rustWithoutReturnPointerRet]
+      · have : retIr s.ret = none := by
+          cases hs : s.ret with
+          | prim p => simp [hs, retByRef] at hb; simp [retIr, hb]
+          | unit => simp [hs, retByRef] at hb
+          | _ => rfl
+        simp [declareSlots, rustWithReturnPointer, slotTypes, sigContext, this]
+
+/-- non-vacuity of both directions -/
+example : BTy.isZstVal (.val ⟨0, 8⟩) = true ∧ BTy.isZstVal (.val ⟨4, 4⟩) = false
+    ∧ BTy.isZstVal (.option (.val ⟨0, 1⟩)) = false := by decide
 
 end RotoV.C05
